@@ -294,3 +294,17 @@ Theorem answer_georeference :
     qpt_eq (fst tie + inject_Z i * fst scale, snd tie - inject_Z j * snd scale)
            (info_coord (b0, b1, b2, b3) w h (i, j)).
 Proof. exact answer_georef_is_request. Qed.
+
+(* TileManager._load_tile_coords (`for created_tile in created_tiles: if created_tile.coord in tiles: tiles[coord].source =
+   created_tile.source`, TileCollection.tiles_dict = last cell per coordinate): whatever the ORDER in which the creator
+   returns the tiles (meta tile after meta tile, not the row order of the request) and whatever other tiles it returns,
+   the cell of the request with coordinate c ends up with the image created for c.  Premises: c occurs once in the
+   request (true for get_affected_level_tiles lists) and the creator made one image for c. *)
+Theorem created_tile_lands_in_own_cell :
+  forall (A : Type) (created : list (lcoord * A)) (cells : list (lcell A)) k c v,
+    nth_error (map fst cells) k = Some (Some c) ->
+    (forall j, nth_error (map fst cells) j = Some (Some c) -> j = k) ->
+    (forall v', In (c, v') created -> v' = v) ->
+    In (c, v) created ->
+    nth_error (load_assign cells created) k = Some (Some c, Some v).
+Proof. exact load_assign_created_own. Qed.
